@@ -547,9 +547,11 @@ def gen_c17(rnd, tier):
         w += [{"op": "pget", "c": "c1", "pat": ["$SYS", "clients"], "tid": t, "wait": True}, {"op": "get", "c": "c1", "key": ["w", "k"], "tid": t + 1, "wait": True}]
     scs = with_extmon(rnd, scs)
     # a quarter of the scenarios: one or two further offenders use the REST API
+    # (at most four log sources per scenario: the linearizability search grows with their number)
     for sc in scs:
-        if rnd.random() < 0.25:
-            add_rest(rnd, sc, odd=True, n=rnd.randint(1, 2))
+        room = 4 - len(sc["sessions"])
+        if room > 0 and rnd.random() < 0.4:
+            add_rest(rnd, sc, odd=True, n=rnd.randint(1, room))
     return scs
 
 
@@ -590,6 +592,19 @@ def gen_c15(rnd, tier):
         return it
     n = 24 if tier == "quick" else 400
     scs = [rounds_scenario(rnd, rnd.randint(2, 3), rnd.randint(3, 6), 2, mk, auth="s3cr3t", first=first) for _ in range(n)]
+    # a third of them: one or two clients of the REST API next to the sessions, with a token of their own (or none,
+    # or an invalid one) on every request
+    def rest_claims(i):
+        k = rnd.random()
+        if k < 0.15:
+            return None
+        if k < 0.3:
+            return {"op": "auth", "kind": rnd.choice(["garbage", "forged", "expired"]), "claims": {"read": [], "write": [], "delete": []}}
+        return {"op": "auth", "kind": "ok", "claims": {"read": rnd.choice(GRANTS), "write": rnd.choice(GRANTS), "delete": rnd.choice(GRANTS)}}
+    for sc in scs:
+        room = 4 - len(sc["sessions"])
+        if room > 0 and rnd.random() < 0.4:
+            add_rest(rnd, sc, odd=False, claims=rest_claims, n=rnd.randint(1, room))
     # one privilege not granted (an empty list, or no entry at all in the token), the other two granted for
     # everything: every kind of request once, on data an unrestricted session wrote before
     for missing in ("read", "write", "delete"):
